@@ -6,6 +6,7 @@ package compat
 
 import (
 	"fmt"
+	"hash/fnv"
 	"reflect"
 	"strings"
 	"unicode/utf8"
@@ -63,6 +64,30 @@ func vfStdCodec() encoding.CodecV2 { return encoding.GetCodecV2(grpcproto.Name) 
 
 func vfBuf(b []byte) mem.BufferSlice { return mem.BufferSlice{mem.SliceBuffer(b)} }
 
+// vfBufSegmented hands the wire bytes over the way gRPC does for large or decompressed messages: in 1-3 buffers. The
+// number of buffers and the cut positions are a function of the bytes themselves (no randomness outside the generators).
+func vfBufSegmented(b []byte) mem.BufferSlice {
+	if len(b) < 2 {
+		return vfBuf(b)
+	}
+	h := fnv.New32a()
+	_, _ = h.Write(b)
+	x := h.Sum32()
+	n := 1 + int(x%3)
+	if n == 1 {
+		return vfBuf(b)
+	}
+	c1 := 1 + int((x>>8)%uint32(len(b)-1))
+	if n == 2 || len(b) < 3 {
+		return mem.BufferSlice{mem.SliceBuffer(append([]byte{}, b[:c1]...)), mem.SliceBuffer(append([]byte{}, b[c1:]...))}
+	}
+	c2 := 1 + int((x>>16)%uint32(len(b)-1))
+	if c2 < c1 {
+		c1, c2 = c2, c1
+	}
+	return mem.BufferSlice{mem.SliceBuffer(append([]byte{}, b[:c1]...)), mem.SliceBuffer(append([]byte{}, b[c1:c2]...)), mem.SliceBuffer(append([]byte{}, b[c2:]...))}
+}
+
 // vfDecode runs a codec's Unmarshal under a panic guard.
 func vfDecode(c encoding.CodecV2, data []byte, into any) (err error, panicked any) {
 	defer func() {
@@ -70,7 +95,7 @@ func vfDecode(c encoding.CodecV2, data []byte, into any) (err error, panicked an
 			panicked = r
 		}
 	}()
-	return c.Unmarshal(vfBuf(data), into), nil
+	return c.Unmarshal(vfBufSegmented(data), into), nil
 }
 
 // ---- legacy struct reflection
@@ -325,7 +350,10 @@ func vfNormalizeFailureMessages(m protoreflect.Message) {
 		switch {
 		case fd.IsMap():
 			if fd.MapValue().Message() != nil {
-				v.Map().Range(func(_ protoreflect.MapKey, mv protoreflect.Value) bool { vfNormalizeFailureMessages(mv.Message()); return true })
+				v.Map().Range(func(_ protoreflect.MapKey, mv protoreflect.Value) bool {
+					vfNormalizeFailureMessages(mv.Message())
+					return true
+				})
 			}
 		case fd.Message() == nil:
 		case fd.IsList():
